@@ -111,13 +111,13 @@ class Let:
             body = self.rhs.lines(ch, sub)
             if where == 0:
                 return [ind + "let %s = " % self.name + body[0][len(sub):]]
-            return [ind + "let %s =" % self.name] + body
+            return [ind + "let %s =" % self.name + trail(ch)] + body
         # block form (if / match): same line -> the construct starts after `= `, its continuation lines use the deeper indent
         head = "let %s = " % self.name
         if where == 0:
             ls = self.rhs.lines(ch, sub, first_prefix=ind + head)
             return ls
-        return [ind + "let %s =" % self.name] + self.rhs.lines(ch, sub)
+        return [ind + "let %s =" % self.name + trail(ch)] + self.rhs.lines(ch, sub)
 
 
 class If:
@@ -157,9 +157,10 @@ class If:
             if self.els is not None:
                 s += " else %s" % self.els.stmts[0].text
             return [s]
-        out = [fp + "if %s then" % self.cond] + tl
+        # (a comment may follow then / else / -> / = at the end of the line that opens a block)
+        out = [fp + "if %s then" % self.cond + trail(ch)] + tl
         for c, bl in parts:
-            out.append(ind + "elif %s then" % c)
+            out.append(ind + "elif %s then" % c + trail(ch))
             out += bl
         if el is not None:
             if else_same == 1 and self.els.single():
@@ -168,7 +169,7 @@ class If:
                 out.append(ind + "else " + el[0][len(el_sub):])
                 out += el[1:]
             else:
-                out.append(ind + "else")
+                out.append(ind + "else" + trail(ch))
                 out += el
         return out
 
@@ -200,7 +201,7 @@ class Match:
                 out.append(prefix + bl[0][len(sub):])
                 out += bl[1:]
             else:
-                out.append(armind + "| %s ->" % pat)
+                out.append(armind + "| %s ->" % pat + trail(ch))
                 out += bl
         return out
 
@@ -215,7 +216,7 @@ class Fn:
         bl = self.body.lines(ch, sub)
         if same == 1 and self.body.single():
             return ["let %s = %s" % (self.header, self.body.stmts[0].text)]
-        return ["let %s =%s" % (self.header, trail(ch) if False else "")] + bl
+        return ["let %s =%s" % (self.header, trail(ch))] + bl
 
 
 class LocalFn:
